@@ -114,6 +114,8 @@ def snap_init(m):
         a_base=float(m.overprod_base), a_max=float(m.overprod_max), a_rate=float(m.overprod_tau),
         dt=m.n_temporal_units_by_step, mu=m.monetary_factor, rebuild_tau=m.rebuild_tau,
         stock0=_arr(m.inputs_stock_0),
+        Zy=_arr(m.mriot.Z.to_numpy()), Yy=_arr(m.mriot.Y.to_numpy()),
+        xy=_arr(np.asarray(m.mriot.x).flatten()), Ay=_arr(m.mriot.A.to_numpy()),
     )
     d["state0"] = snap_econ(m)
     return d
